@@ -149,6 +149,17 @@ def main():
     A = [ord(c) for c in 'F(),. a"#']
     ins = [s for s in strings(A, 4, nrand, 14) if s and not chr(s[0]).isspace()]
     compare('manifest_ctor', 'manifest', ['m ' + hx(s) for s in ins], [hx(s) for s in ins], lambda a: a, lambda m: re.sub(r' rest=\S*$', '', m), ins)
+    # the whole #define: parameter list + replacement list cut into nodes (save_expansion)
+    A = [ord(c) for c in 'Fab(),. #"\'1_']
+    ins = [s for s in strings(A, 3, nrand, 24) if s and not chr(s[0]).isspace()]
+    for _ in range(nrand):
+        # structured: F(params) body with the pieces that matter
+        ps = rng.choice([b'', b'(a)', b'(a,b)', b'(a, ...)', b'(a...)', b'(...)', b'()', b'(a,b', b'('])
+        body = b' '.join(rng.choice([b'a', b'b', b'x', b'#a', b'# b', b'a##b', b'x ## a', b'##', b'#', b'__VA_ARGS__', b'__VA_OPT__(a)', b'__VA_OPT__ (', b'__VA_OPT__(', b'__VA_OPT__(a(b)c)',
+                                     b'__VA_OPT__(__VA_OPT__(a) b)', b'__VA_OPT__', b'"a"', b'"a', b"'a'", b"'", b'"\\"a"', b'1a', b"1'000", b'1.5e3a', b'a1', b'_a', b'a_', b'(a)', b',', b'\t', b''])
+                          for _ in range(rng.randrange(0, 6)))
+        ins.append(b'F' + ps + b' ' + body)
+    compare('save_expansion', 'define', ['e ' + hx(s) for s in ins], [hx(s) for s in ins], lambda a: a, lambda m: m, ins)
     # argument scanner after "F("
     A = [ord(c) for c in '(),"\'\\ a\n']
     ins = [b'F(' + s for s in strings(A, 4, nrand, 12)]
